@@ -137,6 +137,7 @@ class Runner:
 
     # ---- one archive --------------------------------------------------------------------
     def probe_archive(self, info, items, rng, exhaustive_positions=400, ndamage=30, nmulti=30):
+        info, items = archgen.canon(self.exe, self.reg, [(info, items)])[0]
         head = [self.reg, archgen.arc_line(info, items)]
         pre = archgen.run_model(head + ["layout"])
         if pre[0] != "ok" or " | " not in pre[1]:
@@ -312,7 +313,7 @@ def check(ctx):
     ctx.oblige("every cut / substitution of %d archives (%d damaged reads): real reader under ASan == reader model, "
                "and the trace monitor (reported error, no crash) holds on the implementation" % (narch, ncmp),
                not r.sigs, "%d kinds of failure: %s" % (len(r.sigs), ", ".join(sorted(r.sigs))), reported=True)
-    ctx.samples = [archgen.arc_line((1, b"MFUS", b"Morfuse Archive"), archgen.gen_case(ctx.rng("sample"), 5, nobj=2)) + " ; tall ; sx 0"]
+    ctx.samples = [archgen.arc_line((1, b"MFUS", b"Morfuse Archive"), archgen.gen_case(ctx.rng("sample"), 5, nobj=2, values=0)) + " ; tall ; sx 0"]
     ctx.stats.update(r.stats)
     cov = {
         "evaluations": ncmp, "distinct_nontrivial": narch,
